@@ -36,8 +36,8 @@ ClassOk(r) ==
 Allowed(r) == r.parsed /\ SemOk(r) /\ Preserved(r) /\ ClassOk(r)
 
 Init == l = 1 /\ bad = 0
-Observe == /\ l <= Len(Rec) /\ Allowed(Rec[l]) /\ l' = l + 1 /\ UNCHANGED bad
-Reject  == /\ l <= Len(Rec) /\ ~Allowed(Rec[l])
+Observe == l <= Len(Rec) /\ (Allowed(Rec[l]) = TRUE) /\ l' = l + 1 /\ UNCHANGED bad
+Reject  == /\ l <= Len(Rec) /\ (Allowed(Rec[l]) = FALSE)
            /\ PrintT(<<"REJECT", ToJson([id |-> Rec[l].id,
                                            sem |-> Rec[l].parsed /\ SemOk(Rec[l]),
                                            preserved |-> Rec[l].parsed /\ Preserved(Rec[l]),
